@@ -223,6 +223,10 @@ pub enum Op {
     /// build an engine in slot `e` from voices; `via_files` = go through `Engine::load(paths)`
     Load { e: usize, voices: Vec<VoiceRef>, via_files: bool },
     CloneEngine { src: usize, dst: usize },
+    /// `dst.clone_from(&src)` on an existing engine (falls back to a plain clone if `dst` is empty)
+    CloneFrom { src: usize, dst: usize },
+    /// load another voice set into an existing engine: `condition.load_model(&vs); voices = vs`
+    Reload { e: usize, voices: Vec<VoiceRef> },
     DropEngine { e: usize },
     Set { e: usize, s: Setter },
     SetW { e: usize, which: Which, w: Vec<f64> },
@@ -268,6 +272,8 @@ impl TOp {
         match &self.op {
             Op::Load { e, voices, via_files } => format!("t{} load e{} {} {}", t, e, *via_files as u8, vrefs(voices)),
             Op::CloneEngine { src, dst } => format!("t{} clone e{} e{}", t, src, dst),
+            Op::CloneFrom { src, dst } => format!("t{} clonefrom e{} e{}", t, src, dst),
+            Op::Reload { e, voices } => format!("t{} reload e{} {}", t, e, vrefs(voices)),
             Op::DropEngine { e } => format!("t{} dropengine e{}", t, e),
             Op::Set { e, s } => format!("t{} set e{} {}", t, e, s.to_text()),
             Op::SetW { e, which, w } => {
@@ -303,6 +309,8 @@ impl TOp {
         let op = match *w.get(1)? {
             "load" => Op::Load { e: slot(w.get(2)?, 'e')?, via_files: *w.get(3)? == "1", voices: parse_vrefs(w.get(4)?)? },
             "clone" => Op::CloneEngine { src: slot(w.get(2)?, 'e')?, dst: slot(w.get(3)?, 'e')? },
+            "clonefrom" => Op::CloneFrom { src: slot(w.get(2)?, 'e')?, dst: slot(w.get(3)?, 'e')? },
+            "reload" => Op::Reload { e: slot(w.get(2)?, 'e')?, voices: parse_vrefs(w.get(3)?)? },
             "dropengine" => Op::DropEngine { e: slot(w.get(2)?, 'e')? },
             "set" => Op::Set { e: slot(w.get(2)?, 'e')?, s: Setter::from_words(&w[3..])? },
             "setw" => {
@@ -345,6 +353,8 @@ impl TOp {
         match &self.op {
             Op::Load { .. } => "load",
             Op::CloneEngine { .. } => "clone",
+            Op::CloneFrom { .. } => "clonefrom",
+            Op::Reload { .. } => "reload",
             Op::DropEngine { .. } => "dropengine",
             Op::Set { .. } => "set",
             Op::SetW { .. } => "setw",
